@@ -43,7 +43,7 @@ ASSUMPTIONS = ['selections of zero frames are excluded (init_arrays documents > 
                'VSINGL reserved operands are not generated; channel identifiers are ASCII and unique within the CHANNEL set',
                'the physical layer (C01, C02) and the table layer (C03) are trusted for the shapes used here'] + c03.ASSUMPTIONS[:2]
 SHARDS = {'quick': 4, 'thorough': 16}
-REQUIRED_CLASSES = {'>=2-frame-types-interleaved': 1, 'multi-dimensional-channel': 1, 'empty-iflr': 1, 'slice-step>1': 1, 'sample': 1,
+REQUIRED_CLASSES = {'>=2-frame-types-interleaved': 1, 'multi-dimensional-channel': 1, 'empty-iflr': 1, 'slice-step>1': 1, 'slice-negative-step': 1, 'sample': 1,
                     'channel-subset-with-gap': 1, 'repeat-populate-different-selection': 1, 'populate-all': 1}
 
 SIG_VSINGL = 'value:VSINGL-scale'
@@ -220,6 +220,16 @@ def resolve_selection(sel, n):
         return None, list(range(n))
     if sel['k'] == 'sample':
         return ('sample', 1 + sel['a'] % (n + 3)), None
+    if sel['k'] == 'slice-desc':
+        hi = sel['a'] % n                       # first frame taken (the highest)
+        lo = hi - 1 - sel['b'] % (hi + 1)       # stop: -1 .. hi - 1 (exclusive)
+        a = None if sel['start_none'] else hi
+        b = None if (sel['stop_none'] or lo < 0) else lo
+        step = -sel['step']
+        rows = list(range(n))[a:b:step]
+        if not rows:
+            raise engine.HarnessError('descending selection resolved to zero frames')
+        return ('slice', a, b, step), rows
     start = sel['a'] % n
     stop = start + 1 + sel['b'] % (n - start)
     step = sel['step']
@@ -298,6 +308,7 @@ def step(s, op, cc):
     cc.cls('populate-all', frame_slice is None and channels is None)
     cc.cls('slice', args is not None and args[0] == 'slice')
     cc.cls('slice-step>1', args is not None and args[0] == 'slice' and (args[3] or 1) > 1 and len(rows) >= 2)
+    cc.cls('slice-negative-step', args is not None and args[0] == 'slice' and (args[3] or 1) < 0 and len(rows) >= 2)
     cc.cls('slice-negative-or-none-bound', args is not None and args[0] == 'slice' and (args[1] is None or args[2] is None or (args[1] or 0) < 0 or (args[2] or 0) < 0))
     cc.cls('sample', args is not None and args[0] == 'sample')
     cc.cls('sample-irregular', args is not None and args[0] == 'sample' and 1 < args[1] < n and n % args[1] != 0)
@@ -355,6 +366,10 @@ SELECTIONS = st.one_of(
                                                   'neg_start': ns, 'neg_stop': np_},
               st.integers(0, 999), st.integers(0, 999), st.sampled_from([None, 1, 2, 2, 3, 4, 6]),
               st.sampled_from([False, False, False, True]), st.sampled_from([False, False, True]),
+              st.sampled_from([False, False, True]), st.sampled_from([False, False, True])),
+    # a negative step: the frames in descending order, as Python slices give them
+    st.builds(lambda a, b, stp, sn, pn: {'k': 'slice-desc', 'a': a, 'b': b, 'step': stp, 'start_none': sn, 'stop_none': pn},
+              st.integers(0, 999), st.integers(0, 999), st.sampled_from([1, 1, 2, 3, 5]),
               st.sampled_from([False, False, True]), st.sampled_from([False, False, True])),
     st.builds(lambda a: {'k': 'sample', 'a': a}, st.integers(0, 999)))
 CHANNELS = st.one_of(st.none(), st.builds(lambda m, u, l: {'mask': m, 'unknown': u, 'as_list': l}, st.integers(0, 63),
